@@ -370,6 +370,9 @@ def arg_info(root, op, prepared):
             vals.append(v)
     flat(prepared['val'])
     flat(prepared['args'])
+    for x in prepared.get('batch_items', []):
+        if not any(x is y for y in vals):
+            flat(x)
     donors, attached, hosts = [], [], []
     for v in vals:
         st = v.token_store
